@@ -106,12 +106,12 @@ fn programs(tier: &str, seed: u64) -> Vec<Program> {
         });
     }
     let mut rng = SmallRng::seed_from_u64(seed.wrapping_mul(977).wrapping_add(5));
-    let (n_rand, n_h) = if tier == "thorough" { (2500, 1500) } else { (300, 250) };
+    let (n_rand, n_h) = if tier == "thorough" { (600, 500) } else { (300, 250) };
     for i in 0..n_rand {
         out.push(if i % 3 == 0 { gen_fusion_dag(&mut rng) } else { gen_random(&mut rng, 8, true) });
     }
     out.extend(horner_programs(&mut rng, n_h));
-    for _ in 0..(if tier == "thorough" { 1500 } else { 300 }) {
+    for _ in 0..(if tier == "thorough" { 500 } else { 300 }) {
         out.push(gen_private_alias(&mut rng));
     }
     out
@@ -129,7 +129,7 @@ fn configs(tier: &str, idx: usize) -> Vec<Cfg> {
         Cfg { d: 1, public_lanes: 1, alu_lanes: 1, k: 3, min_height: 1 },
     ];
     v.push(rot[idx % rot.len()].clone());
-    if tier == "thorough" {
+    if tier == "thorough" && idx % 3 == 0 {
         v.push(rot[(idx + 3) % rot.len()].clone());
     }
     v
@@ -511,7 +511,7 @@ fn main() {
         "ConstAir/PublicAir/AluAir::{trace_to_matrix, preprocessed_trace, compute_schedule, build_scheduled_preprocessed_trace} (on SymF)",
         "<AluAir / WitnessSendAir as Air>::eval incl. eval_alu_interactions (on SymAirBuilder, every row + wrap-around)",
     ].iter().map(|s| s.to_string()).collect();
-    let timeout_ms = if args.tier == "thorough" { 30_000 } else { 5_000 };
+    let timeout_ms = if args.tier == "thorough" { 8_000 } else { 5_000 };
     let mut solver = Solver::new(SolverKind::Z3, P, timeout_ms);
     let progs = programs(&args.tier, args.seed);
     let mut st = args.seed ^ 0x1234567;
